@@ -2,6 +2,8 @@
 
 package exit
 
+//@ ghost var c18wrote int
+
 //@ ghost var c17delta int
 //@ ghost var c17ins int
 //@ ghost var c17rm int
@@ -136,13 +138,17 @@ package exit
 // the resulting plaintext is written whole to the destination of that stream.
 
 //@ func (*Handler).HandleStreamData
-//@ prop C07
-//@ modifies *
+//@ prop C07 C18
+//@ modifies *, c18wrote
 //@ after call IsClosed let conn0 = ac.Conn
 //@ at call Decrypt assert $1 == data
 //@ after call Decrypt let pt = $ret0
 //@ at call net.Conn.Write assert $1 == pt && $0 == conn0 && ac == h.connections[streamID]
 //@ census[C07] net.Conn.Write in (*Handler).HandleStreamData
+//@ ghostinit c18wrote = 0
+//@ after call net.Conn.Write set c18wrote = ite($ret1 == nil, 1, c18wrote)
+//@ at[C18] call CloseWrite assert len(data) == 0 || c18wrote == 1
+//@ note C18: the destination's write side is half-closed for a FIN_WRITE frame only after the data carried by that same frame has been written to the destination
 
 // ---- C17: the exit's connection counter moves only together with its connection map ----
 //
